@@ -346,7 +346,7 @@ def check_C14(tier_):
                 "%s [P%s, forced opcode path %s]" % (f["why"], r.get("P"), " ".join("%02x" % b for b in path)), {"record": r})
     add_hist(res, hs, "C14", "heap", hdesc)
     res.coverage["traces_validated_against_impl"] += hs["coverage"]["transitions_validated_against_Heap_tla"]
-    add_mc(res, tier_, ["MC_Heap", "MC_HeapDeep"])
+    add_mc(res, tier_, ["MC_Heap", "MC_HeapDeep", "MC_HeapStep"])
     res.assumptions = ["live heap measured by a counting global allocator in the harness process, single-threaded, after one warm-up generation per protocol",
                        "reference cycles are detected by the hook by walking the Rc graph from stack and memo roots after every event",
                        "Heap.tla (cells with identity, strong edges; NoCycle, Unshared and MutatesOnlySlots for all opcode sequences up to 6 over the aliasing-relevant subset) is bound to the code transition by transition: Heap!Eff applied to a recorded heap of the real generator must give the recorded next heap up to the names of fresh cells (TraceHeap.tla), for every transition out of every object-graph shape the breadth-first walk reaches up to the logged depth",
